@@ -118,6 +118,25 @@ def records_for(tag, j, g, rng, tier):
     r, res = _do(lambda: xgi.convert_labels_to_integers(H, in_place=False))
     add("convert_labels_to_integers", "convert_labels_to_integers(in_place=False)", r, res,
         gg=g.after_relabel() if res == "ok" else g)
+    # relabelling twice: the second pass must record the labels it replaces, not the original ones
+    H2, res = _do(lambda: xgi.convert_labels_to_integers(H, in_place=False))
+    if H2 is not None and H2.num_nodes >= 2:
+        g2 = g.after_relabel()
+        victim = list(H2.nodes)[0]
+        with warnings.catch_warnings():
+            warnings.simplefilter("ignore")
+            H2.remove_node(victim)
+            if H2.num_edges >= 2:
+                H2.remove_edge(list(H2.edges)[0])
+        src2, a2 = hg.proj(H2, g2)
+        for way, f in (("convert_labels_to_integers", lambda: xgi.convert_labels_to_integers(H2, in_place=False)),
+                       ("cleanup", lambda: H2.cleanup(isolates=True, singletons=True, multiedges=True, connected=False,
+                                                      relabel=True, in_place=False))):
+            r, res = _do(f)
+            g3 = g2.after_relabel()
+            dst, anom = hg.proj(r, g3) if r is not None else (EMPTYJ, [])
+            out.append(_rec(f"{tag}.relabel_twice.{way}", f"{way} of an already relabelled network", "convert_labels_to_integers",
+                            src2, dst, res, sorted(set(a2 + anom))))
     return out
 
 
